@@ -38,10 +38,21 @@ def generate(R, tier, focus):
     J = R.randint(1, 8)
     if thorough and R.random() < 0.3:
         J = R.randint(9, 24)
+    # rare large worlds, just past the sizes where a chunked / narrow-counter implementation would plausibly change regime
+    scale = None
+    if R.random() < (0.004 if not thorough else 0.006):
+        scale = R.choice(('many_catalogs', 'many_catalogs', 'many_catalogs', 'heavy_bin', 'block_aligned', 'block_aligned',
+                          'block_aligned'))
+    if scale == 'many_catalogs':
+        J = R.choice((64, 100, 128, 256))
+    elif scale == 'block_aligned':
+        J = R.randint(3, 6)
     start_ms = gen.T0_MS + R.choice((0, 86400000 * 31, 123456000))
     end_ms = start_ms + R.choice((30, 365)) * 86400000
     p_empty = R.choice((0.0, 0.2, 0.5))
     max_ev = R.choice((2, 4, 6)) if not thorough else R.choice((2, 6, 15))
+    if scale == 'many_catalogs':
+        max_ev = 2
     cats = []
     for cid in range(J):
         n = 0 if R.random() < p_empty else R.randint(1, max_ev)
@@ -54,7 +65,29 @@ def generate(R, tier, focus):
         i = R.randrange(J - 1)
         cats[i] = []
         cats[i + 1] = []
-    if R.random() < 0.1:          # concentrate everything in one cell: many unsampled cells
+    forced_encoding = None
+    align = None
+    if scale == 'heavy_bin':
+        # more events in one space-magnitude bin than a 16-bit counter holds
+        c0, k0 = R.randrange(gen.n_cells(region)), R.randrange(len(mags['edges']))
+        base_ev = gen.gen_event(R, region, mags, cell=c0, mbin=k0, eid='h', start_ms=start_ms, end_ms=end_ms)[0]
+        hid = R.randrange(J)
+        cats[hid] = [[('h%d' % k)] + base_ev[1:] for k in range(65536 + R.randint(1, 300))]
+    elif scale == 'block_aligned':
+        # streamed file in which one catalog ends exactly on line B (B a plausible block size) and the next catalog id
+        # is skipped (an empty catalog that is not listed)
+        B = R.choice((1000, 1024, 4096))
+        forced_encoding = {'header': R.random() < 0.5, 'placeholders': False, 'fraction': True}
+        a_ = R.randrange(J - 1)
+        for cid in range(J):
+            if not cats[cid] and cid != a_ + 1:
+                cats[cid] = _gen_catalog_events(R, region, mags, cid, 1, start_ms, end_ms)
+        cats[a_ + 1] = []
+        if a_ + 1 == J - 1:
+            cats.append(_gen_catalog_events(R, region, mags, J, 2, start_ms, end_ms))
+            J += 1
+        align = (B, a_)
+    if R.random() < 0.1 and scale is None:          # concentrate everything in one cell: many unsampled cells
         c0 = R.randrange(gen.n_cells(region))
         for cid in range(J):
             cats[cid] = [gen.gen_event(R, region, mags, cell=c0, eid='c%de%d' % (cid, k),
@@ -73,6 +106,9 @@ def generate(R, tier, focus):
         'encoding': {'header': R.random() < 0.5, 'placeholders': R.random() < 0.5,
                      'fraction': R.random() < 0.7},
     }
+    if forced_encoding is not None:
+        cfg['source'] = 'file'
+        cfg['encoding'] = forced_encoding
     if cfg['source'] == 'list':
         cfg['n_cat_given'] = True
         # in-memory catalogs are user objects: they may carry their own `filters` attribute or their own region
@@ -148,6 +184,12 @@ def generate(R, tier, focus):
                 ev, _, _ = gen.gen_event(R, region, mags, eid='c%dlow' % cid, start_ms=start_ms, end_ms=end_ms)
                 ev[5] = gen.dec(mags['edges'][0] - mags['dm'] * R.choice((0.25, 0.5, 2.0)), 6)
                 cats[cid].insert(R.randint(0, len(cats[cid])), ev)
+    if align is not None:
+        # all insertions are done: pad catalog a_ so that its last line is line B of the file
+        B, a_ = align
+        cats[a_ + 1] = []
+        before = (1 if forced_encoding['header'] else 0) + sum(len(cats[i]) for i in range(a_)) + len(cats[a_])
+        cats[a_] = cats[a_] + _gen_catalog_events(R, region, mags, 700 + a_, max(0, B - before), start_ms, end_ms)
     # observed catalogs
     obs = []
     for oi in range(R.randint(1, 3)):
@@ -168,6 +210,8 @@ def generate(R, tier, focus):
         obs.append({'kind': kind, 'events': evs})
     # ops
     n_ops = R.randint(1, 10) if not thorough else R.randint(1, 24)
+    if scale is not None:
+        n_ops = R.randint(2, 4) if scale == 'heavy_bin' else R.randint(3, 8)
     testable = [t for t in TESTS if len(mags['edges']) >= 2 or t in TESTS[:4]]
     plain_ops = PLAIN_OPS
     if cfg['low_mag_unfiltered']:
@@ -190,6 +234,13 @@ def generate(R, tier, focus):
             ops.append({'op': 'OTHER_FC', 'what': R.choice(('rates', 'rates', 'iterate', 'spatial', 'counts'))})
         else:
             ops.append({'op': R.choice(plain_ops), 'verbose': R.random() < 0.3})
+    if scale in ('many_catalogs', 'block_aligned'):
+        # a large world is rare: let it meet every test once (in a drawn order), with a few plain ops in between
+        ops = [{'op': 'TEST', 'name': t, 'obs': R.randrange(len(obs)), 'rng_state': R.randint(0, 2 ** 31 - 1), 'verbose': False,
+                'seed': R.choice((None, 1, 7))} for t in testable]
+        R.shuffle(ops)
+        for _ in range(R.randint(1, 3)):
+            ops.insert(R.randint(0, len(ops)), {'op': R.choice(plain_ops), 'verbose': False})
     other_cats = [_gen_catalog_events(R, region, mags, 500 + cid, R.randint(0, 4), start_ms, end_ms)
                   for cid in range(R.randint(1, 5))]
     prelude = None
